@@ -1,10 +1,11 @@
 (* C10 — property theorems. Nothing but statements closed by [exact]. *)
 From Coq Require Import List NArith Bool Arith.
 From AMV Require Import Model.RpcCodec Spec.C10.
+From AMV Require Proofs.C10Proofs.
 Import ListNotations.
 Open Scope N_scope.
 
-(* placeholder until Proofs/C10_*.v land: a concrete non-vacuity fact *)
+(* a concrete non-vacuity fact *)
 Theorem c10_example_roundtrip :
   let c := {| sync_schema := true; shallow := false; tracked := [0%nat; 2%nat] |} in
   let s1 := {| s_time := [1; 4; 2]; s_q := 7; s_m := 0 |} in
@@ -15,3 +16,146 @@ Theorem c10_example_roundtrip :
   end.
 Proof. vm_compute. reflexivity. Qed.
 Print Assumptions c10_example_roundtrip.
+
+(* (1) deep mode round trip *)
+Theorem roundtrip_deep :
+  forall (c : cfg) (s1 s2 : snap) (hello : bool),
+    shallow c = false ->
+    length (s_time s1) = length (s_time s2) ->
+    cfg_wf c (length (s_time s1)) = true ->
+    snaps_in_range s1 s2 = true ->
+    (hello = true -> s_m s1 = 0) ->
+    let last := if hello then hello_data c s1 else mk_data c s1 in
+    exists u, calc_update c false (mk_data c s2) last = Some u /\
+      roundtrip_deep_ok c s2 (client_apply c u (mirror c s1) (s_q s1) (s_m s1)) = true.
+Proof. exact C10Proofs.roundtrip_deep_lemma. Qed.
+Print Assumptions roundtrip_deep.
+
+(* (2) a drifted mirror is rejected by the checksum *)
+Theorem checksum_detects :
+  forall (c : cfg) (s1 s2 : snap) (hello : bool) (t : list N) (q m : N),
+    shallow c = false ->
+    length (s_time s1) = length (s_time s2) ->
+    cfg_wf c (length (s_time s1)) = true ->
+    snaps_in_range s1 s2 = true ->
+    (hello = true -> s_m s1 = 0) ->
+    length t = length (mirror c s1) ->
+    Forall (fun x => x < w64) t -> q < w64 -> m < w32 ->
+    drifted c s1 t q m = true ->
+    let last := if hello then hello_data c s1 else mk_data c s1 in
+    exists u, calc_update c false (mk_data c s2) last = Some u /\
+      rejected (client_apply c u t q m) = true.
+Proof. exact C10Proofs.checksum_detects_lemma. Qed.
+Print Assumptions checksum_detects.
+
+(* (3) shallow mode: the decoded values (acceptance bit excluded) *)
+Theorem roundtrip_shallow_values :
+  forall (c : cfg) (s1 s2 : snap) (hello : bool) (t : list N),
+    shallow c = true ->
+    length (s_time s1) = length (s_time s2) ->
+    cfg_wf c (length (s_time s1)) = true ->
+    Forall (fun x => x < w64) (s_time s1) -> Forall (fun x => x < w64) (s_time s2) ->
+    s_q s1 <= s_q s2 -> s_q s2 - s_q s1 < w16 -> s_q s2 < w64 ->
+    s_m s1 <= s_m s2 -> s_m s2 - s_m s1 < w8 -> s_m s2 < w32 ->
+    (hello = true -> s_m s1 = 0) ->
+    length t = length (mirror c s1) -> parities t = parities (mirror c s1) ->
+    Forall (fun x => x < w64) t ->
+    let last := if hello then hello_data c s1 else mk_data c s1 in
+    exists u, calc_update c true (mk_data c s2) last = Some u /\
+      values_shallow_ok c s2 (client_apply c u t (s_q s1) (s_m s1)) = true.
+Proof. exact C10Proofs.roundtrip_shallow_values_lemma. Qed.
+Print Assumptions roundtrip_shallow_values.
+
+(* (5) calcUpdateMutations: a chain of snapshots, deep mode *)
+Theorem mutation_chain :
+  forall (c : cfg) (ss : list snap) (s0 : snap),
+    shallow c = false ->
+    cfg_wf c (length (s_time s0)) = true ->
+    C10Proofs.chain_ok s0 ss ->
+    exists us,
+      calc_update_muts c (map (mk_data c) ss) (mk_data c s0) = Some us /\
+      length us = length ss /\
+      C10Proofs.apply_chain c us (mirror c s0) (s_q s0) (s_m s0)
+      = Some (mirror c (last ss s0), s_q (last ss s0), s_m (last ss s0)).
+Proof. exact C10Proofs.mutation_chain_lemma. Qed.
+Print Assumptions mutation_chain.
+
+(* (4) refutations: defects of the modelled code *)
+
+(* a queue-tick delta of exactly 2^16 is truncated AND accepted *)
+Theorem roundtrip_queue_boundary_refuted :
+  exists (c : cfg) (s1 s2 : snap),
+    shallow c = false /\
+    length (s_time s1) = length (s_time s2) /\
+    cfg_wf c (length (s_time s1)) = true /\
+    deltas_ok w32 (s_time s1) (s_time s2) = true /\
+    s_q s1 <= s_q s2 /\ s_q s2 - s_q s1 = 65536 /\ s_q s2 < w64 /\
+    s_m s1 <= s_m s2 /\ s_m s2 - s_m s1 < w8 /\ s_m s2 < w32 /\
+    exists u t' q' m',
+      calc_update c false (mk_data c s2) (mk_data c s1) = Some u /\
+      client_apply c u (mirror c s1) (s_q s1) (s_m s1) = Some (t', q', m', true) /\
+      q' <> s_q s2 /\
+      roundtrip_deep_ok c s2 (client_apply c u (mirror c s1) (s_q s1) (s_m s1)) = false.
+Proof. exact C10Proofs.roundtrip_queue_boundary_refuted_lemma. Qed.
+Print Assumptions roundtrip_queue_boundary_refuted.
+
+(* a per-state tick delta of exactly 2^32 is truncated AND accepted *)
+Theorem roundtrip_tick_boundary_refuted :
+  exists (c : cfg) (s1 s2 : snap),
+    shallow c = false /\
+    length (s_time s1) = length (s_time s2) /\
+    cfg_wf c (length (s_time s1)) = true /\
+    deltas_ok (w32 + 1) (s_time s1) (s_time s2) = true /\
+    nth 0 (s_time s2) 0 - nth 0 (s_time s1) 0 = 4294967296 /\
+    s_q s1 <= s_q s2 /\ s_q s2 - s_q s1 < w16 /\ s_q s2 < w64 /\
+    s_m s1 <= s_m s2 /\ s_m s2 - s_m s1 < w8 /\ s_m s2 < w32 /\
+    exists u t' q' m',
+      calc_update c false (mk_data c s2) (mk_data c s1) = Some u /\
+      client_apply c u (mirror c s1) (s_q s1) (s_m s1) = Some (t', q', m', true) /\
+      nth 0 t' 0 <> nth 0 (mirror c s2) 0 /\
+      roundtrip_deep_ok c s2 (client_apply c u (mirror c s1) (s_q s1) (s_m s1)) = false.
+Proof. exact C10Proofs.roundtrip_tick_boundary_refuted_lemma. Qed.
+Print Assumptions roundtrip_tick_boundary_refuted.
+
+(* shallow mode: a faithful mirror with correct decoded values is rejected *)
+Theorem shallow_accept_refuted :
+  exists (c : cfg) (s1 s2 : snap),
+    shallow c = true /\
+    length (s_time s1) = length (s_time s2) /\
+    cfg_wf c (length (s_time s1)) = true /\
+    snaps_in_range s1 s2 = true /\
+    exists u t' q' m',
+      calc_update c true (mk_data c s2) (mk_data c s1) = Some u /\
+      client_apply c u (mirror c s1) (s_q s1) (s_m s1) = Some (t', q', m', false) /\
+      values_shallow_ok c s2 (client_apply c u (mirror c s1) (s_q s1) (s_m s1)) = true.
+Proof. exact C10Proofs.shallow_accept_refuted_lemma. Qed.
+Print Assumptions shallow_accept_refuted.
+
+(* the same without schema sync and with no change at all between snapshots *)
+Theorem shallow_accept_refuted_nosync :
+  exists (c : cfg) (s1 : snap),
+    shallow c = true /\ sync_schema c = false /\
+    cfg_wf c (length (s_time s1)) = true /\
+    snaps_in_range s1 s1 = true /\
+    exists u t' q' m',
+      calc_update c true (mk_data c s1) (mk_data c s1) = Some u /\
+      client_apply c u (mirror c s1) (s_q s1) (s_m s1) = Some (t', q', m', false) /\
+      values_shallow_ok c s1 (client_apply c u (mirror c s1) (s_q s1) (s_m s1)) = true.
+Proof. exact C10Proofs.shallow_accept_refuted_nosync_lemma. Qed.
+Print Assumptions shallow_accept_refuted_nosync.
+
+(* Hello path with a non-zero machine tick: wrong machine tick and rejected *)
+Theorem hello_machtick_refuted :
+  exists (c : cfg) (s1 s2 : snap),
+    shallow c = false /\
+    length (s_time s1) = length (s_time s2) /\
+    cfg_wf c (length (s_time s1)) = true /\
+    snaps_in_range s1 s2 = true /\
+    s_m s1 = 1 /\ s_m s2 = 1 /\
+    exists u t' q' m',
+      calc_update c false (mk_data c s2) (hello_data c s1) = Some u /\
+      client_apply c u (mirror c s1) (s_q s1) (s_m s1) = Some (t', q', m', false) /\
+      m' <> s_m s2 /\
+      roundtrip_deep_ok c s2 (client_apply c u (mirror c s1) (s_q s1) (s_m s1)) = false.
+Proof. exact C10Proofs.hello_machtick_refuted_lemma. Qed.
+Print Assumptions hello_machtick_refuted.
